@@ -19,12 +19,15 @@ def run(ctx):
         walks = [dict(label="walk-hot", tags="check,clock,castle,promo,ep", walks=40, plies=80, shards=28),
                  dict(label="walk-all", tags="", walks=20, plies=120, shards=14)]
     fam = [("promo-slice", "Families_pos.cfg", {"VERIF_FAMILY": "promo", "VERIF_VARIANT": "rbq"[ctx.seed % 3], "VERIF_FILE": (ctx.seed * 5) % 8,
-                                                 "VERIF_SLICE": ctx.seed % 32, "VERIF_SLICES": 32})] if ctx.tier == "quick" else \
-          [("promo-%s-%d" % (v, f), "Families_pos.cfg", {"VERIF_FAMILY": "promo", "VERIF_VARIANT": v, "VERIF_FILE": f, "VERIF_SLICE": 0, "VERIF_SLICES": 2})
+                                                 "VERIF_SLICE": (ctx.seed * 13) % 64, "VERIF_SLICES": 64})] if ctx.tier == "quick" else \
+          [("promo-%s-%d" % (v, f), "Families_pos.cfg", {"VERIF_FAMILY": "promo", "VERIF_VARIANT": v, "VERIF_FILE": f, "VERIF_SLICE": (ctx.seed + 5 * f) % 64, "VERIF_SLICES": 64})
            for v in "rbq" for f in range(8)]
     fam = fam + ([("ep-slice", "Families_pos.cfg", {"VERIF_FAMILY": "ep", "VERIF_VARIANT": "rbq"[(ctx.seed + 1) % 3], "VERIF_FILE": (ctx.seed * 3 + 2) % 8,
                                                     "VERIF_SLICE": (ctx.seed + 3) % 16, "VERIF_SLICES": 16})] if ctx.tier == "quick" else
                  [("ep-%s-%d" % (v, f), "Families_pos.cfg", {"VERIF_FAMILY": "ep", "VERIF_VARIANT": v, "VERIF_FILE": f, "VERIF_SLICE": 0, "VERIF_SLICES": 2})
                   for v in "rq" for f in range(8)])
+    # check evasion / pins / double checks in the king's neighbourhood (1152 slices; thorough takes 24 of them)
+    ev = [(ctx.seed * 131 + 577 + i * 48) % 1152 for i in range(1 if ctx.tier == "quick" else 24)]
+    fam = fam + [("evade-%d" % sl, "Families_pos.cfg", {"VERIF_FAMILY": "evade", "VERIF_VARIANT": "x", "VERIF_FILE": 0, "VERIF_SLICE": sl, "VERIF_SLICES": 1152}) for sl in ev]
     board_pipeline(ctx, bfs, walks, fam)
     sys_model_check(ctx, hot, 1 if ctx.tier == "quick" else 2)
